@@ -85,6 +85,22 @@ def both(a: qubit, b: qubit) -> None:
     cx(a, b)
 
 @guppy
+def add_into(src: array[int, 2], dst: array[int, 2]) -> None:
+    dst[0] += src[0]
+    src[1] += 100
+
+@guppy
+def three(p: array[int, 2], q: array[int, 2], r: array[int, 2]) -> None:
+    p[0] += 1000
+    q[0] += 2000
+    r[0] += 3000
+    r[1] = p[1] * 10 + q[1]
+
+@guppy
+def mk2() -> array[int, 2]:
+    return array(40, 50)
+
+@guppy
 def nxt(ctr: array[int, 1]) -> int:
     ctr[0] += 1
     return ctr[0] - 1
@@ -171,8 +187,58 @@ def programs(tier):
                                                         'result("m", measure_array(qs))'], 1))
     out.append(("int-array", "loop", "nested-in-loop", ["a = array(1, 2)", "for _ in range(3):", "    nested(a)",
                                                         'result("o0", a[0])', 'result("o1", a[1])'], 0))
+    out += multi_programs(tier)
     out.append(("int-array", "branch", "call-in-branch", ["a = array(1, 2)", "if i == 0:", "    set0(a)", "else:", "    inc1(a)",
                                                           'result("o0", a[0])', 'result("o1", a[1])'], 1))
+    return out
+
+
+# ---- calls with SEVERAL borrowed parameters of one type: every ordered combination of argument kinds
+# (caller places of every shape, and temporaries whose returned value is dropped)
+MULTI_SETUP = ["a = array(1, 2)", "a2 = array(3, 4)", "s = S(array(5, 6), 0)", "s2 = S(array(7, 8), 0)",
+               "o = O(S(array(9, 10), 0), 0)", "xss = array(array(11, 12), array(13, 14), array(15, 16))",
+               "x3 = array(array(array(17, 18), array(19, 20)), array(array(21, 22), array(23, 24)))",
+               "ss = array(S(array(25, 26), 0), S(array(27, 28), 1))", "a3 = array(60, 70)", "t = (array(29, 30), 5)"]
+MULTI_OBS = ([f'result("{n}{k}", {e}[{k}])' for n, e in (("a", "a"), ("a2", "a2"), ("s", "s.arr"), ("s2", "s2.arr"), ("o", "o.inner.arr"), ("a3", "a3"))
+              for k in range(2)]
+             + [f'result("xss{r}{k}", xss[{r}][{k}])' for r in range(3) for k in range(2)]
+             + [f'result("x3{a}{b}{k}", x3[{a}][{b}][{k}])' for a in range(2) for b in range(2) for k in range(2)]
+             + [f'result("ss{r}{k}", ss[{r}].arr[{k}])' for r in range(2) for k in range(2)]
+             + ["ta, tk = t", 'result("t0", ta[0])', 'result("t1", ta[1])'])
+# kind -> (expression as 1st / 2nd / 3rd argument): distinct instances so that nothing is lent twice
+MULTI_ARGS = {
+    "var": ("a", "a2", "a3"),
+    "field": ("s.arr", "s2.arr", "o.inner.arr"),
+    "nested-field": ("o.inner.arr", "s.arr", "s2.arr"),
+    "tuple-elem": ("t[0]", "a2", "a3"),
+    "elem": ("xss[i]", "xss[(i + 1) % 3]", "xss[(i + 2) % 3]"),
+    "elem-of-elem": ("x3[0][j]", "x3[1][j]", "x3[0][1 - j]"),
+    "field-of-elem": ("ss[j].arr", "ss[1 - j].arr", "s.arr"),
+    "temp-literal": ("array(10, 20)", "array(30, 40)", "array(50, 60)"),
+    "temp-call": ("mk2()", "mk2()", "mk2()"),
+    "temp-copy": ("a3.copy()", "a3.copy()", "a3.copy()"),
+}
+_DISTINCT = {"tuple-elem": 1, "nested-field": 1}
+
+
+def multi_programs(tier):
+    out = []
+    kinds = list(MULTI_ARGS)
+    for k1, k2 in itertools.product(kinds, repeat=2):
+        e1, e2 = MULTI_ARGS[k1][0], MULTI_ARGS[k2][1]
+        if e1 == e2 or {e1, e2} <= {"o.inner.arr"}:
+            continue
+        body = MULTI_SETUP + [f"add_into({e1}, {e2})"] + MULTI_OBS
+        out.append(("int-array", f"two-borrowed:{k1},{k2}", "add_into", body, 2))
+    k3 = ["var", "field", "elem", "elem-of-elem", "temp-literal", "temp-call"] if tier == "quick" else kinds
+    for ks in itertools.product(k3, repeat=3):
+        es = [MULTI_ARGS[k][n] for n, k in enumerate(ks)]
+        if len(set(es)) < 3 and not all(e.startswith(("array(", "mk2", "a3.copy")) for e in es if es.count(e) > 1):
+            continue
+        if "x3[0][j]" in es and "x3[0][1 - j]" in es:
+            continue        # the same row x3[0] would be lent twice
+        body = MULTI_SETUP + [f"three({', '.join(es)})"] + MULTI_OBS
+        out.append(("int-array", f"three-borrowed:{','.join(ks)}", "three", body, 2))
     return out
 
 
